@@ -38,6 +38,26 @@ struct fill_handler_arg {
 	char buf[PATH_MAX];
 };
 
+/*
+ * Every line of the info file ends with a newline.  A line without it is an
+ * incomplete record (the file was cut short): treat it as the end of the file.
+ */
+static char *info_fgets(char *buf, int size, FILE *fp)
+{
+	if (fgets(buf, size, fp) == NULL || strchr(buf, '\n') == NULL)
+		return NULL;
+	return buf;
+}
+
+static ssize_t info_getline(char **buf, size_t *len, FILE *fp)
+{
+	ssize_t ret = getline(buf, len, fp);
+
+	if (ret >= 0 && strchr(*buf, '\n') == NULL)
+		return -1;
+	return ret;
+}
+
 static char *copy_info_str(char *src)
 {
 	char *dst = xstrdup(src);
@@ -68,7 +88,7 @@ static int read_exe_name(void *arg)
 	struct uftrace_info *info = &handle->info;
 	char *buf = rha->buf;
 
-	if (fgets(buf, sizeof(rha->buf), handle->fp) == NULL)
+	if (info_fgets(buf, sizeof(rha->buf), handle->fp) == NULL)
 		return -1;
 
 	if (strncmp(buf, "exename:", 8))
@@ -116,7 +136,7 @@ static int read_exe_build_id(void *arg)
 	char *buf = rha->buf;
 	int i;
 
-	if (fgets(buf, sizeof(rha->buf), handle->fp) == NULL)
+	if (info_fgets(buf, sizeof(rha->buf), handle->fp) == NULL)
 		return -1;
 
 	if (strncmp(buf, "build_id:", 9))
@@ -152,7 +172,7 @@ static int read_exit_status(void *arg)
 	struct uftrace_info *info = &handle->info;
 	char *buf = rha->buf;
 
-	if (fgets(buf, sizeof(rha->buf), handle->fp) == NULL)
+	if (info_fgets(buf, sizeof(rha->buf), handle->fp) == NULL)
 		return -1;
 
 	if (strncmp(buf, "exit_status:", 12))
@@ -210,7 +230,7 @@ static int read_cmdline(void *arg)
 	struct uftrace_info *info = &handle->info;
 	char *buf = rha->buf;
 
-	if (fgets(buf, sizeof(rha->buf), handle->fp) == NULL)
+	if (info_fgets(buf, sizeof(rha->buf), handle->fp) == NULL)
 		return -1;
 
 	if (strncmp(buf, "cmdline:", 8))
@@ -246,7 +266,7 @@ static int read_cpuinfo(void *arg)
 	char *buf = rha->buf;
 	int i, lines;
 
-	if (fgets(buf, sizeof(rha->buf), handle->fp) == NULL)
+	if (info_fgets(buf, sizeof(rha->buf), handle->fp) == NULL)
 		return -1;
 
 	if (strncmp(buf, "cpuinfo:", 8))
@@ -260,7 +280,7 @@ static int read_cpuinfo(void *arg)
 		return -1;
 
 	for (i = 0; i < lines; i++) {
-		if (fgets(buf, sizeof(rha->buf), handle->fp) == NULL)
+		if (info_fgets(buf, sizeof(rha->buf), handle->fp) == NULL)
 			return -1;
 
 		if (strncmp(buf, "cpuinfo:", 8))
@@ -351,7 +371,7 @@ static int read_meminfo(void *arg)
 	struct uftrace_info *info = &handle->info;
 	char *buf = rha->buf;
 
-	if (fgets(buf, sizeof(rha->buf), handle->fp) == NULL)
+	if (info_fgets(buf, sizeof(rha->buf), handle->fp) == NULL)
 		return -1;
 
 	if (strncmp(buf, "meminfo:", 8))
@@ -416,7 +436,7 @@ static int read_osinfo(void *arg)
 	char *buf = rha->buf;
 	int i, lines;
 
-	if (fgets(buf, sizeof(rha->buf), handle->fp) == NULL)
+	if (info_fgets(buf, sizeof(rha->buf), handle->fp) == NULL)
 		return -1;
 
 	if (strncmp(buf, "osinfo:", 7))
@@ -430,7 +450,7 @@ static int read_osinfo(void *arg)
 		return -1;
 
 	for (i = 0; i < lines; i++) {
-		if (fgets(buf, sizeof(rha->buf), handle->fp) == NULL)
+		if (info_fgets(buf, sizeof(rha->buf), handle->fp) == NULL)
 			return -1;
 
 		if (strncmp(buf, "osinfo:", 7))
@@ -513,7 +533,7 @@ static int read_taskinfo(void *arg)
 	char *buf = NULL;
 	size_t len = 0;
 
-	if (getline(&buf, &len, handle->fp) < 0)
+	if (info_getline(&buf, &len, handle->fp) < 0)
 		goto out;
 
 	if (strncmp(buf, "taskinfo:", 9))
@@ -527,7 +547,7 @@ static int read_taskinfo(void *arg)
 		return -1;
 
 	for (i = 0; i < lines; i++) {
-		if (getline(&buf, &len, handle->fp) < 0)
+		if (info_getline(&buf, &len, handle->fp) < 0)
 			goto out;
 
 		if (strncmp(buf, "taskinfo:", 9))
@@ -602,7 +622,7 @@ static int read_usageinfo(void *arg)
 	char *buf = rha->buf;
 	int i, lines;
 
-	if (fgets(buf, sizeof(rha->buf), handle->fp) == NULL)
+	if (info_fgets(buf, sizeof(rha->buf), handle->fp) == NULL)
 		return -1;
 
 	if (strncmp(buf, "usageinfo:", 10))
@@ -616,7 +636,7 @@ static int read_usageinfo(void *arg)
 		return -1;
 
 	for (i = 0; i < lines; i++) {
-		if (fgets(buf, sizeof(rha->buf), handle->fp) == NULL)
+		if (info_fgets(buf, sizeof(rha->buf), handle->fp) == NULL)
 			return -1;
 
 		if (strncmp(buf, "usageinfo:", 10))
@@ -665,7 +685,7 @@ static int read_loadinfo(void *arg)
 	struct uftrace_info *info = &handle->info;
 	char *buf = rha->buf;
 
-	if (fgets(buf, sizeof(rha->buf), handle->fp) == NULL)
+	if (info_fgets(buf, sizeof(rha->buf), handle->fp) == NULL)
 		return -1;
 
 	if (strncmp(buf, "loadinfo:", 9))
@@ -718,7 +738,7 @@ static int read_arg_spec(void *arg)
 	char *buf = NULL;
 	size_t len = 0;
 
-	if (getline(&buf, &len, handle->fp) < 0)
+	if (info_getline(&buf, &len, handle->fp) < 0)
 		goto out;
 
 	if (strncmp(buf, "argspec:", 8))
@@ -738,7 +758,7 @@ static int read_arg_spec(void *arg)
 		return -1;
 
 	for (i = 0; i < lines; i++) {
-		if (getline(&buf, &len, handle->fp) < 0)
+		if (info_getline(&buf, &len, handle->fp) < 0)
 			goto out;
 
 		if (!strncmp(buf, "argspec:", 8))
@@ -781,7 +801,7 @@ static int read_record_date(void *arg)
 	struct uftrace_info *info = &handle->info;
 	char *buf = rha->buf;
 
-	if (fgets(buf, sizeof(rha->buf), handle->fp) == NULL)
+	if (info_fgets(buf, sizeof(rha->buf), handle->fp) == NULL)
 		return -1;
 
 	if (strncmp(buf, "record_date:", 12))
@@ -789,7 +809,7 @@ static int read_record_date(void *arg)
 
 	info->record_date = copy_info_str(&buf[12]);
 
-	if (fgets(buf, sizeof(rha->buf), handle->fp) == NULL)
+	if (info_fgets(buf, sizeof(rha->buf), handle->fp) == NULL)
 		return -1;
 
 	if (strncmp(buf, "elapsed_time:", 13))
@@ -817,7 +837,7 @@ static int read_pattern_type(void *arg)
 	char *buf = rha->buf;
 	size_t len;
 
-	if (fgets(buf, sizeof(rha->buf), handle->fp) == NULL)
+	if (info_fgets(buf, sizeof(rha->buf), handle->fp) == NULL)
 		return -1;
 
 	if (strncmp(buf, "pattern_type:", 13))
@@ -845,7 +865,7 @@ static int read_uftrace_version(void *arg)
 	struct uftrace_info *info = &handle->info;
 	char *buf = rha->buf;
 
-	if (fgets(buf, sizeof(rha->buf), handle->fp) == NULL)
+	if (info_fgets(buf, sizeof(rha->buf), handle->fp) == NULL)
 		return -1;
 
 	if (strncmp(buf, "uftrace_version:", 16))
@@ -880,7 +900,7 @@ static int read_utc_offset(void *arg)
 	struct uftrace_info *info = &handle->info;
 	char *buf = rha->buf;
 
-	if (fgets(buf, sizeof(rha->buf), handle->fp) == NULL)
+	if (info_fgets(buf, sizeof(rha->buf), handle->fp) == NULL)
 		return -1;
 
 	if (strncmp(buf, "utc_offset:", 11))
